@@ -17,8 +17,7 @@ CFG = {
                    "reach.enum_level1_complete), those with 2 deviations only for small programs (reach.enum_level2_complete), deeper levels are cut by the budget (reach.enum_budget_exhausted; "
                    "reach.enum_all_schedules_complete counts the seeds whose whole schedule tree fitted); in 'enumerate' the reopen+retention epilogue runs for every 4th schedule only; "
                    "after 100 (140) fine-grained driver steps only harness gates and lock waits still park; bluge and the file system run atomically between gates. "
-                   "While the family in-use:holder-reference-stolen:* is a known finding, schedules that contain a peek select / retention pass and then lose a holder's reference are abandoned at that point; "
-                   "half of the seeds ('pinned_only') contain no such operation and judge everything else at full strength"),
+                   "The in-use:holder-reference-stolen:* family found by this check is fixed in /repo (known-findings.txt); half of the seeds ('pinned_only') still avoid peek selects and retention passes so that the rest of the oracle is judged without them"),
     "budget": {"quick": 60, "thorough": 900},
     "rule": ("'schedules': each seed draws 1-4 day segments (open-dormant, idle-eligible or idle-closed; some already past the TTL), idle timeout, TTL (1-3 days), a ~50% subset of armed gate sites (35/50/65/100%), "
              "optionally one of two focused mixes (retention pass against a multi-segment query; release + forced delete + re-create of the oldest day) and for each of 2-4 actors "
